@@ -8,11 +8,11 @@ package main
 
 import (
 	"fmt"
+	"go/ast"
 	"go/token"
+	"go/types"
 	"os"
 	"regexp"
-	"go/ast"
-	"go/types"
 	"sort"
 	"strings"
 
